@@ -134,32 +134,41 @@ HARNESS h_vec_tri() { vec_dispatch<Tri>(); }
 
 // Growth arithmetic with huge n: every reserve/resize entry point, n any 64-bit value, arena either failing or granting what is
 // asked (the stub hands out the same small pool: nothing but the first `size` items is written by a reserve).
-template<typename T>
+template<typename T, bool kf_region>
 static void vec_huge() {
   Arena& arena = env_arena();
   T store[2]; ArenaVector<T> v;
   fill_nondet(store[0]); v._data = store; v._size = 1; v._capacity = 2;
+  T first = store[0];  // releasing the old storage to the arena overwrites its first bytes with the slot link
   size_t n = nondet_u64(); V_ASSUME(n > 2);
   pool_fail = nondet_bool();
   unsigned op = nondet_u8() % 3;
   Error e = op == 0 ? v.reserve_fit(arena, n) : op == 1 ? v.reserve_grow(arena, n) : v.reserve_additional(arena, n - 1);
   verif_observe(uint32_t(e));
+  // D18C: when the block granted by the arena holds 2^32 items or more, the item count is truncated to 32 bits.
+  bool d18c = e == Error::kOk && pool_granted / sizeof(T) > 0xFFFFFFFFu; (void)d18c;
+  if constexpr (kf_region) V_ASSUME(d18c);
+#if KF_D18C
+  else V_ASSUME(!d18c);
+#endif
   if (e == Error::kOk) {
     V_ASSERT(size_t(v.capacity()) >= n, "vector: successful reserve of n items reports a capacity of at least n");
+    if constexpr (kf_region) { V_WITNESS("vec-huge-d18c-region"); return; }
     V_ASSERT(n < 0xFFFFFFFFu && !pool_fail, "vector: success only for counts that fit 32 bits and when the arena delivered");
     V_ASSERT(pool_req >= n * sizeof(T) && pool_req / sizeof(T) >= n, "vector: the arena was asked for at least n items without overflow");
     V_ASSERT(size_t(v.capacity()) * sizeof(T) <= pool_granted, "vector: reported capacity fits the granted block");
-    V_ASSERT(v.size() == 1 && v[0] == store[0], "vector: reserve keeps the content");
+    V_ASSERT(v.size() == 1 && v[0] == first, "vector: reserve keeps the content");
     V_WITNESS("vec-huge-ok");
-  } else {
+  } else if constexpr (!kf_region) {
     V_ASSERT(e == Error::kOutOfMemory, "vector: failure is reported as out of memory");
     V_ASSERT(v.data() == store && v.size() == 1 && v.capacity() == 2, "vector: failed reserve leaves the vector unchanged");
     V_ASSERT(pool_fail || n >= 0xFFFFFFFFu, "vector: failure only when the arena failed or the count does not fit");
     V_WITNESS("vec-huge-refused");
   }
 }
-HARNESS h_vec_huge_u32() { vec_huge<uint32_t>(); }
-HARNESS h_vec_huge_tri() { vec_huge<Tri>(); }
+HARNESS h_vec_huge_u32() { vec_huge<uint32_t, false>(); }
+HARNESS h_vec_huge_tri() { vec_huge<Tri, false>(); }
+HARNESS h_vec_huge_kf_D18C() { vec_huge<Tri, true>(); }
 
 // =================================================================================================================
 // ArenaBitSet: pre-state = any size 0..128 over a two-word store (capacity 128) with arbitrary content that satisfies the
@@ -218,14 +227,10 @@ HARNESS h_bitset_ranges() {
     case 3: V_ASSUME(start <= m.n && count <= m.n - start); s.fill_bits(start, count); for (unsigned k = 0; k < BCAP; k++) if (k >= start && k < start + count) m.b[k] = true; if (count > 64) V_WITNESS("bitset-fill-bits-across-words"); V_WITNESS("bitset-fill-bits"); break;
     default: {  // iteration over set bits = ascending list of the model's set bits
       ArenaBitSet::ForEachBitSet it(s);
-      unsigned k = 0;
-      for (unsigned step = 0; step < BCAP + 1; step++) {
-        while (k < BCAP && !m.b[k]) k++;
-        if (k >= BCAP) break;
+      for (unsigned k = 0; k < BCAP; k++) if (m.b[k]) {
         V_ASSERT(it.has_next(), "bitset: iterator has a next element while the model has a set bit left");
         size_t got = it.next();
         V_ASSERT(got == k, "bitset: iterator yields the set bits in ascending order");
-        k++;
       }
       V_ASSERT(!it.has_next(), "bitset: iterator ends after the last set bit");
       V_WITNESS("bitset-iterate");
@@ -318,7 +323,7 @@ HARNESS h_bitvec_ops() {
   } else if (op == 2) {
     bool value = nondet_bool();
     // precondition of index_of: a matching bit exists at or after start (it does not take a length)
-    unsigned first = 192; for (unsigned k = 0; k < 192; k++) if (k >= start && first == 192 && word_bit(buf, k) == value) first = k;
+    unsigned first = 192; for (unsigned k = 192; k-- > 0;) if (k >= start && word_bit(buf, k) == value) first = k;
     V_ASSUME(first < 192);
     size_t got = Support::bit_vector_index_of(buf, start, value);
     V_ASSERT(got == first, "bit vector: index_of returns the first matching bit at or after start");
@@ -326,14 +331,10 @@ HARNESS h_bitvec_ops() {
     V_WITNESS("bitvec-index-of");
   } else {
     Support::BitVectorIterator<BitWord> it(Span<const BitWord>(buf, 3), start);
-    unsigned k = start;
-    for (unsigned step = 0; step < 193; step++) {
-      while (k < 192 && !word_bit(buf, k)) k++;
-      if (k >= 192) break;
+    for (unsigned k = 0; k < 192; k++) if (k >= start && word_bit(buf, k)) {
       V_ASSERT(it.has_next(), "bit vector iterator: has a next element while a set bit is left");
       V_ASSERT(it.peek_next() == k, "bit vector iterator: peek shows the next set bit");
       V_ASSERT(it.next() == k, "bit vector iterator: yields set bits from start in ascending order");
-      k++;
     }
     V_ASSERT(!it.has_next(), "bit vector iterator: ends after the last set bit");
     V_WITNESS("bitvec-iterate");
@@ -343,13 +344,7 @@ HARNESS h_bitvec_ops() {
 HARNESS h_bitword_iter() {
   uint64_t w = nondet_u64(); uint32_t w32 = nondet_u32();
   Support::BitWordIterator<uint64_t> it(w);
-  unsigned k = 0;
-  for (unsigned step = 0; step < 65; step++) {
-    while (k < 64 && !((w >> k) & 1)) k++;
-    if (k >= 64) break;
-    V_ASSERT(it.has_next() && it.next() == k, "bit word iterator: yields the set bits of a 64-bit word in ascending order");
-    k++;
-  }
+  for (unsigned k = 0; k < 64; k++) if ((w >> k) & 1) V_ASSERT(it.has_next() && it.next() == k, "bit word iterator: yields the set bits of a 64-bit word in ascending order");
   V_ASSERT(!it.has_next(), "bit word iterator: ends after the last set bit");
   Support::BitWordIterator<uint32_t> it32(w32);
   unsigned c = 0; uint32_t seen = 0;
@@ -358,13 +353,7 @@ HARNESS h_bitword_iter() {
   // two-operand iterator: bits of (a & ~b) over two words
   BitWord a[2] = {nondet_u64(), nondet_u64()}, b[2] = {nondet_u64(), nondet_u64()};
   Support::BitVectorOpIterator<BitWord, Support::AndNot> oit(a, b, 2);
-  unsigned j = 0;
-  for (unsigned step = 0; step < 129; step++) {
-    while (j < 128 && !(word_bit(a, j) && !word_bit(b, j))) j++;
-    if (j >= 128) break;
-    V_ASSERT(oit.has_next() && oit.next() == j, "bit vector op iterator: yields the set bits of a and-not b in ascending order");
-    j++;
-  }
+  for (unsigned j = 0; j < 128; j++) if (word_bit(a, j) && !word_bit(b, j)) V_ASSERT(oit.has_next() && oit.next() == j, "bit vector op iterator: yields the set bits of a and-not b in ascending order");
   V_ASSERT(!oit.has_next(), "bit vector op iterator: ends after the last set bit");
   V_WITNESS("bitword-iterate");
 }
